@@ -94,10 +94,9 @@ inductive Tok
   | lg (i : Int)          -- `%l`  (binary `nput` only)
   | name (s : String)     -- `%s` of a function / suffix name
   | holl (s : String)     -- Hollerith `%d:%s`
-  | vbt (x : Dbl)         -- header `" %.g"` (ampl_vbtol)
+  | vbt (x : Dbl)         -- header `" %.17g"` (ampl_vbtol; libc printf, read with std::strtod)
   | cmt (s : String)      -- `\t#…` comment up to the end of the line
   | eol                   -- `\n`
-  | bad                   -- what `TextFormatter::apr` prints for `%d` of INT_MIN (`i = -i` overflows): not a number
 deriving DecidableEq, Repr, Inhabited
 
 inductive Err
